@@ -129,7 +129,13 @@ def sem_prop(pid, pbit, modes, step_names, extra_quick=(), extra_thorough=()):
                                       "fixed to 'poll a fresh future' (partition), %s%s" % (
                                           n, pre, alpha, ", MutexType=CheckLock" if lock == "check" else "")))
         hj("p0_n4", 0, 4, quick)
-        hj("p2_n5", 2, 5, quick)
+        if pid == "C05":
+            # (the symbolic-fairness p2_n5 instance needs ~9 min; the 'steal' partition reaches the re-queue path in 2-3 min)
+            quick.append(H(SEM, "hist_c05_x_p1s_n5", "hold", replay=("sem_hist_noop", sem_cfg(mv, 1, 0, 1)), mask=P(pbit), est_s=300, est_gb=3.5, timeout=900,
+                           bounds="E-HIST 'steal' partition: poll future #0, release(a), try_acquire(b) with symbolic amounts, then 2 arbitrary operations"))
+            hj("p2_n5", 2, 5, thorough, est=1200)
+        else:
+            hj("p2_n5", 2, 5, quick)
         hj("p0_n5", 0, 5, thorough, est=1200)
         hj("p2_n6", 2, 6, thorough, est=1500)
         hj("p3_n6", 3, 6, thorough, est=1200)
